@@ -30,7 +30,7 @@ CONSTANTS Log,            \* set of offsets present in the partition
 
 EARLIEST == -2
 LATEST == -1
-COMMITTED == -1001
+COMMITTED == -101
 Range(f) == {f[i] : i \in DOMAIN f}
 SeqToSet(q) == {q[i] : i \in DOMAIN q}
 LogSeq == LET RECURSIVE Sort(_)
@@ -54,7 +54,7 @@ InitState ==
       cur |-> <<>>,            \* the block the processor is working on
       procPending |-> FALSE,
       lp |-> -1, lc |-> -1,    \* last processed / last committed (-1: none)
-      cds |-> <<>>,            \* waiters of the commit in progress (oldest first): "c<k>" | "auto" | "autoretry" | "shutdown"
+      cds |-> <<>>,            \* waiters of the commit in progress (oldest first): "c<k>" | "auto" | "autoretry"["T"] | "shutdown" | "inner"
       creq |-> [on |-> FALSE, off |-> 0, attempt |-> 0, didx |-> 0],
       ccall |-> FALSE,         \* commit retry timer armed
       looper |-> FALSE, shutting |-> FALSE, shutD |-> FALSE, shutWait |-> FALSE, buf |-> 0, maxAttempts |-> MaxAttempts ]
@@ -104,7 +104,7 @@ AutoCommit(st, byCount) ==
     LET s == st.s IN
     IF s.shutting \/ s.startD = "none" \/ s.lp = -1 \/ ~Group \/ (byCount /\ BlockN = 0) THEN st
     ELSE IF ~byCount \/ s.lc = -1 \/ (s.lp - s.lc) >= BlockN
-    THEN IF s.cds = <<>> THEN Commit(st, "auto") ELSE St([s EXCEPT !.cds = Append(@, "autoretry")], st.out)
+    THEN IF s.cds = <<>> THEN Commit(st, "auto") ELSE St([s EXCEPT !.cds = Append(@, IF byCount THEN "autoretry" ELSE "autoretryT")], st.out)
     ELSE st
 
 \* graceful shutdown, second half: commit (if a group is configured) and stop
@@ -122,7 +122,7 @@ StopNow(s0) ==
         x1 == LET RECURSIVE W(_, _)
                   W(x, q) == IF q = <<>> THEN x
                              ELSE LET who == q[Len(q)] rest == SubSeq(q, 1, Len(q) - 1) IN
-                                  W(IF who \in {"auto", "autoretry", "shutdown", "inner"} THEN x ELSE Act(x, <<"fire", who, "fail", 0>>), rest)
+                                  W(IF who \in {"auto", "autoretry", "autoretryT", "shutdown", "inner"} THEN x ELSE Act(x, <<"fire", who, "fail", 0>>), rest)
               IN W(St(s1, st.out), s.cds)
         x2 == IF x1.s.startD = "pending" THEN Act(x1, <<"fire", "start", "ok", s.lp>>) ELSE x1
     IN St([x2.s EXCEPT !.startD = "none", !.shutWait = FALSE], x2.out)
@@ -144,7 +144,8 @@ Deliver(st, ok, val) ==
            IF k = 0 THEN x
            ELSE LET who == ws[k] IN
                 W(CASE who = "auto" -> IF ok THEN x ELSE FailStart(x)
-                    [] who = "autoretry" -> IF ok THEN AutoCommit(x, TRUE) ELSE x
+                    [] who = "autoretry" -> IF ok THEN AutoCommit(x, TRUE) ELSE x       \* (it re-examines the count rule,
+                    [] who = "autoretryT" -> IF ok THEN AutoCommit(x, FALSE) ELSE x     \*  or commits as the timer would have)
                     [] who = "shutdown" ->
                          IF ok THEN CommitAndStop(x)        \* (the commit it waited for may not cover everything)
                          ELSE LET y == StopNow(x) IN
@@ -267,14 +268,17 @@ UpdHist(hh, pre, e, r) ==
         sf == Cardinality({k \in DOMAIN o : o[k][1] = "fire" /\ o[k][2] = "start"})
         fetches == SelectSeq(o, LAMBDA a : a[1] = "fetch")
         nd == Flat(Procs(o))
+        \* messages whose processing completed successfully in this step: a synchronous processor returns successfully
+        \* by construction; an asynchronous one when the environment says so
+        okNow == IF SyncProc THEN SeqToSet(nd) ELSE IF e.a = "ProcDone" /\ e.x = 1 THEN SeqToSet(pre.cur) ELSE {}
         back == nd # <<>> /\ hh.resetPending /\ hh.delivered # <<>> /\ nd[1] <= hh.delivered[Len(hh.delivered)] IN
     \* A permitted discontinuity starts a new segment: an application restart, or -- once the offset-reset policy has
     \* fired -- the first delivery that goes back (messages of the reply being worked through still drain before it).
     [ delivered |-> IF e.a = "Start" \/ back THEN nd ELSE hh.delivered \o nd,
       resetPending |-> IF e.a = "Start" \/ back THEN FALSE ELSE hh.resetPending \/ (e.a = "FetchErr" /\ e.k = "range"),
-      procOK |-> IF r.s.lp # pre.lp /\ pre.cur # <<>> THEN hh.procOK \cup SeqToSet(pre.cur) ELSE hh.procOK,
+      procOK |-> hh.procOK \cup okNow,
       \* ... those processed since the latest start
-      runOK |-> IF e.a = "Start" THEN {} ELSE IF r.s.lp # pre.lp /\ pre.cur # <<>> THEN hh.runOK \cup SeqToSet(pre.cur) ELSE hh.runOK,
+      runOK |-> IF e.a = "Start" THEN {} ELSE hh.runOK \cup okNow,
       started |-> hh.started + (IF e.a = "Start" THEN 1 ELSE 0),
       startFires |-> IF e.a = "Start" THEN sf ELSE hh.startFires + sf,
       afterStop |-> r.s.startD = "none",
